@@ -2,11 +2,12 @@
 # build.sh <outdir> : rewrite /repo's working tree and build the check binary into <outdir>/check.bin
 set -e
 export GOFLAGS=-mod=mod GOPROXY=off GOSUMDB=off GOTOOLCHAIN=local
+ROOT="$(cd "$(dirname "$(readlink -f "$0")")" && pwd)"
 OUT="$1"; shift
 REPO="${VERIF_REPO:-/repo}"
 mkdir -p "$OUT"
 # never let the go command touch /repo/go.mod or go.sum: work against private copies
 cp "$REPO/go.mod" "$OUT/go.mod"; cp "$REPO/go.sum" "$OUT/go.sum"
-/verif/tools/bin/rewrite -repo "$REPO" -out "$OUT" -modfile "$OUT/go.mod" -vrt /verif/vrt -harness /verif/harness >/dev/null
+"$ROOT/tools/bin/rewrite" -repo "$REPO" -out "$OUT" -modfile "$OUT/go.mod" -vrt "$ROOT/vrt" -harness "$ROOT/harness" >/dev/null
 cd "$REPO"
 go build -modfile="$OUT/go.mod" -tags verif -overlay "$OUT/overlay.json" -o "$OUT/check.bin" ./internal/verif/cmd/check
